@@ -44,7 +44,21 @@ pub fn decode_case03(tape: &[u32], order_seed: u64, order_seed2: u64) -> Case03 
     {
         {
             let mut g = Gen::new(tape, GenCfg { ill: 1, exclude: vec!["exec", "trigger", "now", "env", "parse_selection", "stringify"], ..GenCfg::default() });
-            let (pipe, env) = EPipe::decode(&mut g, 3, 2);
+            let (mut pipe, mut env) = EPipe::decode(&mut g, 3, 2);
+            if pipe.split.is_none() && g.tape.chance(1, 5) {
+                // plain column selections over the scalar fields (rows that differ only in
+                // which columns are absent)
+                pipe.selects.clear();
+                env.sels.clear();
+                let fields = ["n", "m", "i", "j", "s", "t", "b", "z"];
+                let k = 2 + g.tape.below(2);
+                let start = g.tape.below(fields.len());
+                for i in 0..k {
+                    let f = fields[(start + i) % fields.len()];
+                    pipe.selects.push((Expr::key(0, f), format!("s{}", i)));
+                    env.sels.push((format!("s{}", i), RECORD.iter().find(|r| r.0 == f).map(|r| r.1).unwrap_or(Any)));
+                }
+            }
             let only_objects = g.tape.chance(1, 5);
             let unique = g.tape.chance(1, 3);
             let ns = [0usize, 0, 1, 1, 2, 3][g.tape.below(6)];
@@ -67,6 +81,12 @@ pub fn decode_case03(tape: &[u32], order_seed: u64, order_seed2: u64) -> Case03 
                 if g.tape.chance(1, 8) {
                     let k = *g.tape.pick(&[Num, Str, Null, Bool, ArrNum]);
                     inputs.push(g.lit(k, 1));
+                } else if g.tape.chance(1, 6) {
+                    // sparse records: one small value sitting in different fields of the same kind,
+                    // so that rows agree on the present values but not on which ones are absent
+                    let v = g.tape.pick_s(&["1", "2", "null", "\"a\""]);
+                    let f = g.tape.pick_s(&["n", "m", "i", "j", "s", "t", "b", "z"]);
+                    inputs.push(format!("{{\"{}\":{}}}", f, v));
                 } else {
                     let b = &bases[g.tape.below(bases.len())];
                     if g.tape.chance(1, 2) || b.len() < 3 {
